@@ -8,9 +8,24 @@ ROOT = os.path.dirname(os.path.dirname(os.path.abspath(__file__)))
 
 
 def native_checks(tier, seed):
-    n = "3" if tier == "quick" else "5"
+    n = "3" if tier == "quick" else "4"
     path = os.path.join(ROOT, "replay", "c14_history.py")
-    p = subprocess.run([sys.executable, path, n], capture_output=True, text=True, timeout=1500)
+    # one process per placement (fresh heap each: codefind scans the garbage collector's object graph), in parallel
+    procs = [(pl, subprocess.Popen([sys.executable, path, n, f"--placement={pl}"], stdout=subprocess.PIPE, stderr=subprocess.PIPE, text=True))
+             for pl in ("top", "A.B.m", "A.n", "inner", "wrapped")]
+    outs, rcs, errs = [], [], []
+    for pl, pr in procs:
+        o, e = pr.communicate(timeout=1500)
+        outs.append(o)
+        rcs.append(pr.returncode)
+        errs.append(e)
+
+    class P:
+        stdout = "".join(outs)
+        stderr = "".join(errs)
+        returncode = 1 if 1 in rcs else (0 if all(r == 0 for r in rcs) else 2)
+
+    p = P
     viol = []
     known = []
     for line in p.stdout.splitlines():
@@ -20,7 +35,7 @@ def native_checks(tier, seed):
                           "script": open(path).read().replace('sys.argv[1].isdigit() else 4', 'sys.argv[1].isdigit() else 3').replace('if "--known-only" in sys.argv:', 'if True:')})
     if p.returncode == 1:
         viol.append({"name": "C14/native/reference-history", "model": {"output": p.stdout[-500:]}, "goal": p.stdout[-300:], "path": "",
-                     "script": open(path).read().replace('int(sys.argv[1]) if len(sys.argv) > 1 else 4', n)})
+                     "script": open(path).read().replace('sys.argv[1].isdigit() else 4', 'sys.argv[1].isdigit() else ' + n)})
     elif p.returncode != 0:
         raise RuntimeError("c14_history crashed: " + p.stderr[-800:])
     return {"bounded": [{"unit": "native:reference-history", "bound": f"5 placements x all histories of length {n} over {{probe by name, probe by reference, deactivate, call, resolve}}",
